@@ -631,7 +631,9 @@ func setField(tokens []lexer.Token, strct reflect.Value, field structLexerField,
 	}
 
 	if f.Type() == tokenType {
-		f.Set(reflect.ValueOf(tokens[0]))
+		if len(tokens) > 0 { // A capture such as @(Ident?) can match without consuming a token.
+			f.Set(reflect.ValueOf(tokens[0]))
+		}
 		return nil
 	}
 
